@@ -19,7 +19,7 @@ T = {
         note='Trusted: spec evaluator twin of the oracle command; registry get_all_mutators() as the list of mutators. Completion orders sampled.'),
     'C03': dict(
         level='exploration', ref='§5 C03',
-        technique='property-based testing: proposal-graph search (no-op check, BFS+SCC, best-first return-path search) and CPU/memory-limited enumeration on generated scripts',
+        technique='property-based testing: proposal-graph search (no-op check, BFS+SCC, best-first return-path search) and CPU/memory-limited enumeration on generated scripts; real runs must not repeat a content, nor stall on a command that hangs',
         text='For generated well-sorted and damaged scripts every proposal is checked to change the token sequence; cycles are searched in the proposal graph by bounded closure + SCC and by return-path search from every non-shortening edge; every mutator call runs under RLIMIT_CPU/RLIMIT_AS so hangs are named. Bounded search is what this family can give for termination.',
         note='Cycles longer than the depth bound or outside the explored subgraph are not excluded. CPU-time limits (not wall clock) decide hangs.'),
     'C04': dict(
@@ -30,7 +30,7 @@ T = {
     'C05': dict(
         level='exploration', ref='§5 C05',
         technique='property-based testing over traced real runs: history invariant (chain of writes, verdict-before-write, derivation from predecessor) with schedule perturbation',
-        text='Real runs with -j>1 are traced (every apply_simp derivation, every verdict, every write of the output file, per process); the invariant over the history is that each written content was accepted before the write and derives from its immediate predecessor by one traced simplification (one group for ddmin). Delays derived from candidate content drive late and simultaneous successes.',
+        text='Real runs with -j>1 are traced (every apply_simp derivation, every verdict, every write of the output file, per process); the invariant over the history is that each written content was accepted before the write and derives from its immediate predecessor by one traced simplification (one group for ddmin); in half of the runs the file is read at every traced line of every write and must hold the previous or the new element. Delays derived from candidate content drive late and simultaneous successes.',
         note='Interleavings are sampled, not enumerated. Tracing wrappers are installed from /verif on module attributes; ddSMT itself is unmodified.'),
     'C06': dict(
         level='fault_enumeration', ref='§5 C06',
@@ -39,13 +39,13 @@ T = {
         note='Granularity is Python-level events and OS-level file visibility; torn writes inside one write(2) are below it.'),
     'C07': dict(
         level='exploration', ref='§5 C07',
-        technique='property-based testing: round trip parse->render->parse for all four renderers and token-sequence equality via an independent tokenizer',
+        technique='property-based testing: round trip parse->render->parse for all four renderers and token-sequence equality via an independent tokenizer; output modes also through write_smtlib_to_file',
         text='Hypothesis-drawn texts with long/hyphenated tokens, literals with special characters, comments, empty lists and top-level atoms are parsed and rendered by all four renderers; each rendering must re-parse to the same structure and have the same reference token sequence.',
         note='Trusted: reference tokenizer (validated by construction in C08). Domain = parser output.'),
     'C08': dict(
         level='exploration', ref='§5 C08',
         technique='property-based testing with a reference reader; finite lexeme-class x separator x position product enumerated exhaustively',
-        text='parse_smtlib is compared with the structure known by construction and with an independent SMT-LIB 2.6 reader on the exhaustive product of lexeme-class pairs, separators and positions and on Hypothesis-drawn lexeme sequences with nesting.',
+        text='parse_smtlib is compared with the structure known by construction and with an independent SMT-LIB 2.6 reader on the exhaustive product of lexeme-class pairs, separators and positions and on Hypothesis-drawn lexeme sequences with nesting; the same comparison for what a real run reads from a file (observed when the parsed input reaches theory detection) and for --parser-test.',
         note='Reference reader written from the standard; disagreement between it and the by-construction structure is a harness error.'),
     'C09': dict(
         level='exploration', ref='§5 C09',
@@ -59,7 +59,7 @@ T = {
         note='Real time is involved; bounds are one-sided with large margins and a process-table witness, otherwise inconclusive.'),
     'C11': dict(
         level='exploration', ref='§5 C11',
-        technique='model-based property testing (recursive nested-list model) incl. a stateful rule-based machine over pending simplifications',
+        technique='model-based property testing (recursive nested-list model) incl. a stateful rule-based machine over pending simplifications, freshly forked workers, and the chain oracle over traced parallel ddmin runs',
         text='apply_simp/substitute are compared with a recursive model on generated trees and identity-/structure-keyed simplifications (replacements containing their own key, deletions, fresh declarations); base immutability and identity of untouched subtrees are asserted; a state machine checks that pending simplifications stay applicable.',
         note='Every call runs under a CPU limit so a hang is a reported failure.'),
     'C12': dict(
@@ -90,7 +90,7 @@ T = {
     'C17': dict(
         level='exploration', ref='§5 C17',
         technique='property-based testing with an independent evaluator (and z3 in the thorough tier) on generated instances of each listed identity mutator',
-        text='For each listed mutator, generated well-sorted instances it accepts are rewritten and original/replacement are compared by sort and by value under many assignments.',
+        text='For each listed mutator, generated well-sorted instances it accepts are rewritten and original/replacement are compared by sort and by value under many assignments; in traced real runs every accepted step made by an identity rewrite must leave the value of every asserted formula unchanged.',
         note='Evaluator covers Core/Ints/Reals/BV/datatypes; FP sorts only.'),
     'C18': dict(
         level='exploration', ref='§5 C18',
